@@ -96,6 +96,8 @@ type Frame struct {
 	exact64    bool
 	fspec      *frameSpec
 	siteOrds   map[ssa.Instruction]int
+	recvOrds   map[ssa.Instruction]int // ordinal among all method calls on the same receiver type
+	altSite    string                  // alternative (receiver-wildcard) name of the call site being executed
 	curInstr   ssa.Instruction
 }
 
@@ -258,10 +260,17 @@ func (fr *Frame) siteOrd(kind string, in ssa.Instruction) int {
 				}
 				if name != "" {
 					groups[name] = append(groups[name], ent{i, i.Pos(), b.Index, k})
+					// second numbering: all methods of one receiver type (call:T.*#k)
+					if strings.HasPrefix(name, "call:") {
+						if d := strings.Index(name, "."); d > 0 {
+							groups["*"+name[:d]+".*"] = append(groups["*"+name[:d]+".*"], ent{i, i.Pos(), b.Index, k})
+						}
+					}
 				}
 			}
 		}
-		for _, g := range groups {
+		fr.recvOrds = map[ssa.Instruction]int{}
+		for gname, g := range groups {
 			sort.SliceStable(g, func(a, c int) bool {
 				if g[a].pos != g[c].pos {
 					return g[a].pos < g[c].pos
@@ -272,7 +281,11 @@ func (fr *Frame) siteOrd(kind string, in ssa.Instruction) int {
 				return g[a].k < g[c].k
 			})
 			for n, e := range g {
-				fr.siteOrds[e.in] = n
+				if strings.HasPrefix(gname, "*") {
+					fr.recvOrds[e.in] = n
+				} else {
+					fr.siteOrds[e.in] = n
+				}
 			}
 		}
 	}
